@@ -29,6 +29,7 @@ var (
 func checkC05(c *chk.Ctx) {
 	h := newH(c)
 	c.Decided = []string{
+		"R05j the file-backed metadata provider compares the expected version with the version it reads from the file in the same Store call (a remembered copy does not fence off a second coordinator process writing the same file)",
 		"R05a the coordinator stores the incremented term (UpdateShardMetadata) on every path before any NewTerm RPC; the term is only incremented in the election function",
 		"R05b the result of the metadata Store retry is not discarded (open finding F14: it is)",
 		"R05c nodes persist and flush the term before adopting / answering it; a failed UpdateTerm never continues on the success path",
@@ -51,6 +52,7 @@ func checkC05(c *chk.Ctx) {
 	ruleMajority(h, "R05g")
 	ruleR05h(h)
 	ruleStatusSwapFresh(h, "R05i")
+	ruleR05j(h)
 }
 
 func ruleR05a(h *H) { ruleR05aInto(h, "R05a") }
@@ -792,5 +794,95 @@ func ruleStatusSwapFresh(h *H, rule string) {
 	}
 	if n == 0 {
 		h.Anchor(rule, "calls of StatusResource.Swap in the coordinator")
+	}
+}
+
+// ruleR05j: the status resource above the provider caches the version it got from its own
+// last store and never re-reads. What stops a superseded coordinator process (overlapping
+// restart) from overwriting a newer status - and with it a newer, already issued term - is
+// the provider's compare-and-set against the stored version. For the file provider that
+// version lives in the file: it has to be read, under the file lock, in every Store.
+func ruleR05j(h *H) {
+	const rule = "R05j"
+	h.Rule(rule, "K4", "in metadata.Provider.Store implementations that write a file, every comparison of the expected version is made against a value produced by a read in the same call (the provider's Get / a file read), not against state remembered in the provider", 1)
+	n := 0
+	for _, fn := range h.P.ImplMethods("coordinator/metadata", "Provider", "Store") {
+		writesFile := false
+		ir.Instrs(fn, func(in ssa.Instruction) {
+			if c := ir.CallOf(in); c != nil {
+				if f := c.StaticCallee(); f != nil && f.Pkg != nil && f.Pkg.Pkg.Path() == "os" && (f.Name() == "WriteFile" || f.Name() == "Rename" || f.Name() == "OpenFile" || f.Name() == "Create") {
+					writesFile = true
+				}
+			}
+		})
+		if !writesFile {
+			continue
+		}
+		var expected *ssa.Parameter
+		for _, p := range fn.Params {
+			if ir.TypeIs(p.Type(), "coordinator/metadata", "Version") {
+				expected = p
+			}
+		}
+		if expected == nil {
+			continue
+		}
+		h.Fn(ir.FuncName(fn))
+		isRead := func(v ssa.Value) bool {
+			c, ok := v.(*ssa.Call)
+			if !ok {
+				return false
+			}
+			if f := c.Call.StaticCallee(); f != nil {
+				if f.Pkg != nil && f.Pkg.Pkg.Path() == "os" && strings.HasPrefix(f.Name(), "Read") {
+					return true
+				}
+				if f.Name() == "Get" && f.Signature.Recv() != nil && ir.SameNamed(f.Signature.Recv().Type(), fn.Signature.Recv().Type()) {
+					return true
+				}
+			}
+			return false
+		}
+		ir.Instrs(fn, func(in ssa.Instruction) {
+			bo, ok := in.(*ssa.BinOp)
+			if !ok || (bo.Op != token.EQL && bo.Op != token.NEQ) {
+				return
+			}
+			var other ssa.Value
+			switch {
+			case ir.Canon(bo.X) == ssa.Value(expected):
+				other = bo.Y
+			case ir.Canon(bo.Y) == ssa.Value(expected):
+				other = bo.X
+			default:
+				return
+			}
+			if _, isConst := ir.Canon(other).(*ssa.Const); isConst {
+				return
+			}
+			n++
+			// every value the operand can take has to come from the read
+			var allFresh func(v ssa.Value, depth int) bool
+			allFresh = func(v ssa.Value, depth int) bool {
+				c := ir.Canon(v)
+				if phi, isPhi := c.(*ssa.Phi); isPhi && depth < 6 {
+					for _, e := range phi.Edges {
+						if e != ssa.Value(phi) && !allFresh(e, depth+1) {
+							return false
+						}
+					}
+					return true
+				}
+				if _, isField := ir.FieldLoadOf(c); isField {
+					return false
+				}
+				return ir.DependsOn(c, isRead)
+			}
+			fresh := allFresh(other, 0)
+			h.Verdict(fresh, rule, fmt.Sprintf("version check #%d in %s", n, ir.FuncName(fn)), h.pos(in), "against the version read from the file in this call", "the expected version is compared with "+ir.Describe(other)+", not with the version read from the file in this call: a second coordinator process on the same file is no longer fenced off and can overwrite a newer status (a term that was already issued is rolled back and then issued again)")
+		})
+	}
+	if n == 0 {
+		h.Anchor(rule, "the expected-version comparison in the file-backed metadata.Provider.Store")
 	}
 }
